@@ -174,7 +174,7 @@ class HplExpression(HplAstObject):
             obj = stack.pop()
             if obj.is_quantifier:
                 # the bound variable has the type of the elements of the domain
-                obj.domain.type_check_references(this_msg, variables)
+                HplExpression.type_check_references(obj.domain, this_msg, variables)
                 token = _element_type_token(obj.domain, this_msg, variables)
                 scoped = variables
                 if token is not None and token.is_message:
